@@ -470,6 +470,7 @@ func (handler *Handler) ProxyClientConnection(ctx context.Context, errCh chan<- 
 					handler.longDataStatements[stmtID] = struct{}{}
 				} else {
 					delete(handler.longDataStatements, stmtID)
+					handler.protocolState.DeleteStatementFields(stmtID)
 				}
 			}
 		case CommandStatementReset:
@@ -481,6 +482,9 @@ func (handler *Handler) ProxyClientConnection(ctx context.Context, errCh chan<- 
 			handler.setQueryHandler(handler.ResetStatementResponseHandler)
 		default:
 			clientLog.Debugf("Command %d not supported now", cmd)
+			// response on a command that isn't processed is proxied as is, whatever command was sent before
+			// (after COM_STMT_PREPARE the handler of result sets stays chosen until the next command)
+			handler.resetQueryHandler()
 		}
 		if _, err := handler.dbConnection.Write(packet.Dump()); err != nil {
 			clientLog.WithError(err).WithField(logging.FieldKeyEventCode, logging.EventCodeErrorNetworkWrite).
@@ -823,8 +827,9 @@ func (handler *Handler) QueryResponseHandler(ctx context.Context, packet *Packet
 		handler.logger.Debugln("Read column descriptions")
 
 		if handler.Capabilities.IsSetMariaDBCacheMetadata() && sendMetadata == 0 {
-			// we should ignore Column Definition packets
-			fields = handler.protocolState.fields
+			// Column Definition packets are not sent: the client reads the rows by the descriptions that it has got
+			// for the statement earlier. Without them the rows can't be parsed and are proxied as is
+			fields, _ = handler.protocolState.StatementFields(handler.protocolState.GetStmtID())
 
 			if !handler.Capabilities.IsClientDeprecateEOF() {
 				eofPacket, err := ReadPacket(dbConnection)
@@ -885,6 +890,10 @@ func (handler *Handler) QueryResponseHandler(ctx context.Context, packet *Packet
 		}
 		handler.logger.Debugln("Read data rows")
 		if handler.isPreparedStatementResult() {
+			if handler.Capabilities.IsSetMariaDBCacheMetadata() && sendMetadata != 0 {
+				// the client replaces the descriptions that it keeps for the statement with these ones
+				handler.protocolState.SetStatementFields(handler.protocolState.GetStmtID(), fields)
+			}
 			for {
 				fieldDataPacket, err := ReadPacket(dbConnection)
 				if err != nil {
@@ -894,6 +903,10 @@ func (handler *Handler) QueryResponseHandler(ctx context.Context, packet *Packet
 				output = append(output, fieldDataPacket)
 				if fieldDataPacket.data[0] == EOFPacket {
 					break
+				}
+				// skip if descriptions of the columns are unknown
+				if len(fields) == 0 {
+					continue
 				}
 				newData, err := handler.processBinaryDataRow(ctx, fieldDataPacket.GetData(), fields)
 				if err != nil {
@@ -977,15 +990,18 @@ func (handler *Handler) PreparedStatementResponseHandler(ctx context.Context, pa
 		}
 	}
 	handler.registry.AddStatement(NewPreparedStatementItem(preparedStmt, querySelectSettings))
+	handler.protocolState.RegisterPreparedStatement(response.StatementID)
 
 	// choose the handler of the next database packet before the client sees this one: once it is written the client
 	// may send its next command, whose handler is set by the client side goroutine and must not be overwritten here
 	handler.resetQueryHandler()
-	// if prams_num > 0 params definition block will follow
+	// if prams_num > 0 params definition block will follow, if columns_num > 0 column definition block will follow
 	// https://dev.mysql.com/doc/internals/en/com-stmt-prepare-response.html
+	fieldTracker := newPreparedStatementFieldTracker(handler, response)
 	if response.ParamsNum > 0 {
-		fieldTracker := NewPreparedStatementFieldTracker(handler, response.ColumnsNum)
 		handler.setQueryHandler(fieldTracker.ParamsTrackHandler)
+	} else if response.ColumnsNum > 0 {
+		handler.setQueryHandler(fieldTracker.ColumnsTrackHandler)
 	}
 
 	// proxy output
